@@ -271,7 +271,16 @@ pub fn check_case(c: &XzCase, prop: &str, rep: &mut Report) -> bool {
         }
     }
     match o.verdict {
-        Verdict::Panic => vs.push(format!("panic: {}", o.msg)),
+        Verdict::Panic => {
+            // C03 promises success for a well-formed file, C18 an error value for an unsupported one: a panic breaks
+            // them.  C06 says "reports success only if ...": a panic is not a success, so under C06 it is C07's business
+            let d = format!("panic: {}", o.msg);
+            if prop == "C06" {
+                rep.drift(format!("(C07 clause seen while checking C06) {}", d), json!({"mut": c.mutation}));
+            } else {
+                vs.push(d);
+            }
+        }
         Verdict::Ok => {
             if !c.accept {
                 vs.push(format!("accepted although the specification rejects it (mutated field: {} block {} value {})", c.mutation.f, c.mutation.b, c.mutation.v));
@@ -317,7 +326,10 @@ fn prop_wants(prop: &str, c: &XzCase) -> bool {
         "C03" => c.mutation.f == "none" && matches!(c.check, 0 | 1 | 4),
         // (the size of the LZMA2 filter's properties field - mutation propsLen - is listed by neither C06 nor C18)
         "C18" => unsupported_feature || (c.mutation.f == "trailing"),
-        "C06" => c.mutation.f != "none" && c.mutation.f != "propsLen" && matches!(c.check, 0 | 1 | 4),
+        // C06 = the integrity fields it lists; stream padding / trailing bytes, reserved block flags, foreign filters,
+        // filter chains and a reserved nibble set EQUALLY in header and footer are C18's ("equal stream flags" makes
+        // hres / fres / hnull / fnull alone C06's as well)
+        "C06" => !matches!(c.mutation.f.as_str(), "none" | "propsLen" | "trailing" | "reserved" | "fid" | "nfilters" | "bothres") && matches!(c.check, 0 | 1 | 4),
         _ => true,
     }
 }
@@ -505,6 +517,11 @@ pub fn flips(prop: &str, seed: u64, nfiles: usize, rep: &mut Report) {
                 let o = api::xz_bytes(&d);
                 rep.eval(hash_of(&(fi, pos, bit)), true);
                 let bad = match o.verdict {
+                    // (a panic is not a success: C06 holds; C07's business)
+                    Verdict::Panic if prop == "C06" => {
+                        rep.drift(format!("(C07 clause seen while checking C06) panic on a flipped file: {}", o.msg), json!({"pos": pos, "bit": bit}));
+                        None
+                    }
                     Verdict::Panic => Some(format!("panic: {}", o.msg)),
                     Verdict::Ok if o.out != content => Some("corrupted file accepted with different output".to_string()),
                     Verdict::Ok => {
